@@ -25,6 +25,15 @@ pub(crate) fn synthesize_expr(
     current: &mut HashMap<air::VarId, Vec<NetId>>,
     target_width: usize,
 ) -> Result<Vec<NetId>, SynthesizerError> {
+    // `'0` / `'1` carry no width of their own (analyzer width 0): they fill the
+    // whole context instead of being a 1-bit value that gets zero-extended.
+    if let Expression::Term(factor) = expr
+        && let Factor::Value(ct) = factor.as_ref()
+        && let Ok(value) = ct.get_value()
+        && value.width() == 0
+    {
+        return Ok(value_to_nets(&value.expand(target_width, false), target_width));
+    }
     if let Some(constant) = try_constant(expr) {
         // Materialise the constant at its own width first: a signed literal
         // (`4'sb1110`) narrower than the context extends with its sign bit.
